@@ -60,6 +60,12 @@ struct CpObs
 static void cpObs(uint32_t cp, CpObs& o)
 {
   String s = Unicode::toString(cp);
+  {
+    // append(uint32, String&) called directly: same bytes, result flag = "something was appended"
+    String direct;
+    bool r = Unicode::append(cp, direct);
+    if(!(direct == s) || r != (s.length() != 0)) { printf("FAULT append(ch, str) differs from toString(ch) at %lu", (unsigned long)cp); hxEndLine(); exit(3); }
+  }
   o.n = s.length();
   if(o.n > sizeof(o.s)) { printf("FAULT toString length %lu", (unsigned long)o.n); hxEndLine(); exit(3); }
   memcpy(o.s, (const char*)s, o.n);
